@@ -100,7 +100,7 @@ func runC06(e *Env) error {
 	r := e.Rep
 	rg := e.Rng
 	r.Rule = "a template rendered through `include … sandboxed` reaches a forbidden spy filter/function written in each of 24 syntactic positions through each of 12 routes (direct, nested includes with/without only/with, extends, parent(), import/from macros, local macro, two-level nesting, the top-level code of an imported library) — all 288 combinations, the sandboxed include tag itself rotating through 8 option forms — plus random policies and random programs using spy filters; " +
-		"every case is rendered again on engines SET UP differently (c06_setup.go: templates from RegisterString / a loader / ParseTemplate or NewTemplate of the same or of another engine + RegisterTemplate / compiled templates; only the sandboxed target, only what lies below it, or all of them; EnableSandbox before or after registration, DisableSandbox before / after / between renders, a permissive policy replaced by the strict one; cache off / development mode / auto-reload; Render / RenderTo / Load+Template.Render) and must give the base outcome; " +
+		"every case is rendered again on engines SET UP differently (c06_setup.go: templates from RegisterString / a loader / ParseTemplate or NewTemplate of the same or of another engine + RegisterTemplate / compiled templates; only the sandboxed target, only what lies below it, or all of them; EnableSandbox before or after registration, DisableSandbox before / after / between renders, a permissive policy replaced by the strict one; cache off / development mode / auto-reload; Render / RenderTo / Load+Template.Render; the policy VALUE in 13 shapes that denote the same allowed set (c06_policy.go: forbidden names absent / listed false / deleted, library defaults edited, permissions withdrawn before or after EnableSandbox or after a render, nil lists, an embedding type, a custom SecurityPolicy implementation)) and must give the base outcome; " +
 		"oracles (implementation-only): a forbidden callback is never invoked and the render fails with a security violation; the same program with the callback allowed renders; the including template outside the sandbox may call the same callback; plus the Lean pipeline (incl. trace of invocations); " +
 		"non-trivial = every case (each has a sandbox boundary and a forbidden callback); distinct by template set + policy"
 	ctx := map[string]any{"x": "val", "xs": []interface{}{"p", "q"}, "t": true, "f": false, "zero": 0, "nul": nil, "plainmap": map[string]interface{}{"k": 1}}
@@ -270,29 +270,40 @@ func runC06(e *Env) error {
 			if strings.HasPrefix(pos, "{% apply") {
 				src = strings.ReplaceAll(pos, "F", name)
 			}
-			res := guarded(func() (string, error) {
-				eng := twig.New()
-				eng.RegisterString("main", "{{ 'Out'|"+f+" }}|{% include 'box' sandboxed %}")
-				eng.RegisterString("box", src)
-				pol := &twig.DefaultSecurityPolicy{AllowedFilters: map[string]bool{}, AllowedFunctions: map[string]bool{}, AllowedTags: map[string]bool{"if": true, "for": true, "set": true, "apply": true, "spaceless": true}}
-				for _, ok := range []string{"upper", "lower", "trim", "spaceless", "length", "capitalize", "raw", "escape", "default", "join", "reverse", "first"} {
-					if ok != name && !(name == "default" && ok == "default") {
-						pol.AllowedFilters[ok] = true
+			// the policy "every listed built-in but this one" in every shape a policy value can take (c06_policy.go)
+			var okFilters []string
+			for _, ok := range []string{"upper", "lower", "trim", "spaceless", "length", "capitalize", "raw", "escape", "default", "join", "reverse", "first"} {
+				if ok != name {
+					okFilters = append(okFilters, ok)
+				}
+			}
+			tpls := map[string]string{"main": "{{ 'Out'|" + f + " }}|{% include 'box' sandboxed %}", "box": src}
+			for _, shape := range c06Shapes {
+				res := guarded(func() (string, error) {
+					eng := twig.New()
+					eng.RegisterString("main", tpls["main"])
+					eng.RegisterString("box", tpls["box"])
+					sp := c06MakePolicy(shape, okFilters, nil, c06Universe(tpls))
+					eng.EnableSandbox(sp.Policy)
+					if sp.Withdraw != nil {
+						if sp.RenderFirst {
+							if _, err := eng.Render("main", ctx); err != nil {
+								return "", fmt.Errorf("render while the filter was still granted: %w", err)
+							}
+						}
+						sp.Withdraw()
 					}
-				}
-				if name != "default" {
-					pol.AllowedFilters["default"] = true
-				}
-				eng.EnableSandbox(pol)
-				return eng.Render("main", ctx)
-			})
-			r.Seen("core-filter:"+src, true)
-			r.Hit("unlisted-core-filter")
-			if res.Class != "security" {
-				if r.Violate(Violation{Key: "sandbox-escape", What: fmt.Sprintf("the policy does not list the built-in filter %q, yet the sandboxed template %q renders %q (class %q %v)", name, src, res.Out, res.Class, res.Err),
-					Broken: "theorem C06_confinement (implementation-only oracle: built-in filters are subject to the policy like user filters, on literals too)",
-					Replay: map[string]any{"kind": "core-filter", "box": src, "filter": name, "class": res.Class, "out": res.Out, "err": fmt.Sprint(res.Err)}}) {
-					return nil
+					return eng.Render("main", ctx)
+				})
+				r.Seen("core-filter:"+src+":"+shape, true)
+				r.Hit("unlisted-core-filter")
+				r.Hit("policy-shape:" + shape)
+				if res.Class != "security" {
+					if r.Violate(Violation{Key: "sandbox-escape", What: fmt.Sprintf("the policy (shape %s) does not allow the built-in filter %q, yet the sandboxed template %q renders %q (class %q %v)", shape, name, src, res.Out, res.Class, res.Err),
+						Broken: "theorem C06_confinement (implementation-only oracle: built-in filters are subject to the policy like user filters, on literals too; a policy is the set of names it allows, however the value spells that set)",
+						Replay: map[string]any{"kind": "core-filter", "box": src, "filter": name, "policy_shape": shape, "allowed_filters": okFilters, "class": res.Class, "out": res.Out, "err": fmt.Sprint(res.Err)}}) {
+						return nil
+					}
 				}
 			}
 		}
